@@ -178,20 +178,26 @@ def run(db, chk):
         for fn in inplace:
             scalar = "double" == fn.type(fn.params[1]["t"]).replace("&", "").replace("const ", "").strip()
             for n in range(1, nmax + 1):
-                for g in graphs(n):
+                # node labels are not always their bottom-up positions: with the identity labelling an
+                # ascending-label sweep is wrong, with positions 1 and 2 swapped a descending-label sweep
+                # is wrong -- the sweep has to follow the stored bottom-up order, reversed
+                labellings = [list(range(n))]
+                if n >= 3:
+                    labellings.append([0, 2, 1] + list(range(3, n)))
+                for g, L in itertools.product(list(graphs(n)), labellings):
                     n_sc += 1
-                    order = list(range(n))
+                    order = list(L)
                     R, C, Wt = Table("m_receivers"), Table("m_receivers_count"), Table("m_receivers_weight")
                     for i, recs in enumerate(g):
                         if recs == ("root",):
-                            C[(i,)] = 1
-                            R[(i, 0)] = i
-                            Wt[(i, 0)] = Poly.sym("wself%d" % i)
+                            C[(L[i],)] = 1
+                            R[(L[i], 0)] = L[i]
+                            Wt[(L[i], 0)] = Poly.sym("wself%d" % L[i])
                         else:
-                            C[(i,)] = len(recs)
+                            C[(L[i],)] = len(recs)
                             for j, r in enumerate(recs):
-                                R[(i, j)] = r
-                                Wt[(i, j)] = Poly.sym("w%d_%d" % (i, r))
+                                R[(L[i], j)] = L[r]
+                                Wt[(L[i], j)] = Poly.sym("w%d_%d" % (L[i], L[r]))
                     this = Obj(model.GRAPH_IMPL, {"m_receivers": R, "m_receivers_count": C,
                                                    "m_receivers_weight": Wt, "m_grid": Sym("grid", "g"),
                                                    "m_dfs_indices": PyVec(order)})
@@ -218,13 +224,13 @@ def run(db, chk):
                         bad.append(err)
                       if not bad:
                           want = {}
-                          for i in reversed(order):
-                              s = Poly.sym("s") if scalar else Poly.sym("s%d" % i)
-                              v = Poly.sym("a%d" % i) * s
-                              for d in order:
+                          for i in reversed(range(n)):
+                              s = Poly.sym("s") if scalar else Poly.sym("s%d" % L[i])
+                              v = Poly.sym("a%d" % L[i]) * s
+                              for d in range(n):
                                   if g[d] != ("root",) and i in g[d]:
-                                      v = v + Poly.sym("w%d_%d" % (d, i)) * want[d]
-                              want[i] = v
+                                      v = v + Poly.sym("w%d_%d" % (L[d], L[i])) * want[L[d]]
+                              want[L[i]] = v
                           for i in order:
                               got = acc.get(i, acc.filled)
                               if not (isinstance(got, Poly) and got == want[i]) and not (want[i] == got):
@@ -239,13 +245,6 @@ def run(db, chk):
                                ["root" if r == ("root",) else list(r) for r in g]), not bad, where=fn.ploc,
                                function=fn.bn, construct="recurrence", detail="; ".join(bad[:2]),
                                sample=(n_sc % 13 == 1), extra={"unit": uname})
-        # ---- R4: reverse of the bottom-up order
-        for fn in inplace[:1]:
-            rb = [c for c in calls(fn.body) if c.get("bn", "").endswith("::rbegin")]
-            nb = [c for c in calls(fn.body) if c.get("bn", "").endswith("nodes_indices_bottomup")]
-            chk.ob("C03-R3", "[%s] the sweep iterates the reverse of nodes_indices_bottomup()" % uname,
-                   bool(rb) and bool(nb), where=fn.ploc, function=fn.bn, construct="topdown-sweep",
-                   extra={"unit": uname})
     chk.absorb(db, "C04", {"C04-S1"}, "C03-R5", "single-direction routing leaves exactly one receiver with "
                "partition weight one at every update (shared with C04-S1), so that accumulation conserves "
                "the source", min_instances=100)
